@@ -362,6 +362,10 @@ func (vt *Model) resize(w int, h int) {
 		vt.primaryScreen[i] = make([]cell, w)
 	}
 	last := vt.cursor.row
+	// The scrolling region is reset by a resize: the old one may not fit
+	// the new size
+	vt.margin.top = 0
+	vt.margin.left = 0
 	vt.margin.bottom = row(h) - 1
 	vt.margin.right = column(w) - 1
 	vt.cursor.row = 0
